@@ -3,7 +3,7 @@
    for a refutation) and followed by Print Assumptions. *)
 From Coq Require Import ZArith QArith List Bool Lia.
 From NV Require Import Base.Bytes C16.Tables C16.Model C16.ModelAffine
-  C16.Lemmas C16.LemmasTrk C16.LemmasTckHdr C16.LemmasAffine.
+  C16.Lemmas C16.LemmasTrk C16.LemmasTckHdr C16.LemmasAffine C16.ModelLazy C16.LemmasLazy.
 Import ListNotations.
 Open Scope Z_scope.
 
@@ -91,6 +91,56 @@ Theorem C16_orders_are_the_48_orientations :
   forall c o, In c all_orders -> order_ornt c = Some o -> In o all_ornts.
 Proof. split; [apply orders_are_ornts|exact order_ornt_in]. Qed.
 Print Assumptions C16_orders_are_the_48_orientations.
+
+(* ---- LazyTractogram (IDEAL ARITHMETIC over Q): pending affines compose in application order.
+   apply_affine(A, lazy=True) then apply_affine(B, lazy=True) leaves B . A . pending pending, and
+   every point x that the generator yields comes out of .streamlines as B(A(pending x)) - for any
+   tractogram, however built, whatever was pending.  (TrkFile.save chains to_world(lazy=True) and
+   apply_affine(rasmm->voxmm): the written points are Ti(to_rasmm(x)), not to_rasmm(Ti(x)).) *)
+Theorem C16_lazy_affine_composition : forall A B t,
+  lz_pending (lz_apply_affine B (lz_apply_affine A t)) = aff_mul B (aff_mul A (lz_pending t))
+  /\ sl_eq (lz_streamlines (lz_apply_affine B (lz_apply_affine A t)))
+           (map (map (fun x => aff_apply B (aff_apply A (aff_apply (lz_pending t) x)))) (lz_raw t)).
+Proof. exact lazy_affine_composition. Qed.
+Print Assumptions C16_lazy_affine_composition.
+
+(* the order is observable: the two compositions differ on a concrete instance *)
+Theorem C16_lazy_composition_order_matters : exists A B x,
+  ~ pt_eq (aff_apply B (aff_apply A x)) (aff_apply A (aff_apply B x)).
+Proof. exact composition_order_matters. Qed.
+Print Assumptions C16_lazy_composition_order_matters.
+
+(* affine_to_rasmm keeps pointing at RAS+mm through apply_affine(B, lazy=True), B invertible *)
+Theorem C16_lazy_to_rasmm_invariant : forall B t R, ~ (aff_det B == 0)%Q -> lz_to_rasmm t = Some R ->
+  exists R', lz_to_rasmm (lz_apply_affine B t) = Some R' /\
+    forall x, pt_eq (aff_apply R' (aff_apply B x)) (aff_apply R x).
+Proof. exact lazy_to_rasmm_invariant. Qed.
+Print Assumptions C16_lazy_to_rasmm_invariant.
+
+(* saving a tractogram held in any space (affine_to_rasmm = A) that was NOT built by
+   from_data_func: TCK receives A(x), TRK receives Ti(A(x)) *)
+Theorem C16_lazy_saved_points_ideal : forall pts A Ti,
+  (exists w, lz_saved_tck (lz_of_tractogram pts (Some A)) = Some w /\ sl_eq w (map (map (aff_apply A)) pts))
+  /\ (exists w, lz_saved_trk Ti (lz_of_tractogram pts (Some A)) = Some w
+        /\ sl_eq w (map (map (fun x => aff_apply Ti (aff_apply A x))) pts)).
+Proof. exact lazy_saved_from_tractogram. Qed.
+Print Assumptions C16_lazy_saved_points_ideal.
+
+(* FULL STATEMENT "the items of a lazy tractogram carry the points of its .streamlines":
+   proved for every tractogram not built by from_data_func (C16_lazy_items_partial); FALSE of
+   the faithful model - and of the code, finding S-C16c - for a lazily loaded TRK: its items are
+   the raw voxmm records, and saving it as TCK writes those *)
+Theorem C16_lazy_items_partial : forall t, lz_has_data t = false -> lz_items t = lz_streamlines t.
+Proof. exact lazy_items_no_data. Qed.
+Print Assumptions C16_lazy_items_partial.
+
+Theorem C16_lazy_items_refuted :
+  let t := lz_load_trk raw0 aff_halfvox in
+  lz_items t = raw0 /\ lz_saved_tck t = Some raw0
+  /\ sl_eq (lz_streamlines t) [[(1 # 2, 3 # 2, 5 # 2); (7 # 2, 9 # 2, 11 # 2)]]%Q
+  /\ ~ sl_eq (lz_items t) (lz_streamlines t).
+Proof. exact lazy_items_refuted. Qed.
+Print Assumptions C16_lazy_items_refuted.
 
 (* ---- file position: after load from a file object at ANY position - eager, or lazy followed by
    ANY sequence of passes over the streamlines, each run to exhaustion or abandoned after k items
